@@ -269,7 +269,7 @@ func init() {
 		Level: "exploration",
 		Rule: "case = one cue list x a set of shifts d, checked against the executable specification of Add (shift, clamp start at 0, drop cues whose end <= 0, identity/order/content of survivors, inverse law). " +
 			"Grid cases: every list of 0..4 cues (0..5 thorough) with boundaries s<=e on 0..5, in any order, x every d in [-7,7] (exhaustive); random cases: <=40 cues, ns..s granularity, d in [-max end-1, +24h]; CLI cases: 'astisub sync' on SRT files. " +
-			"distinct_nontrivial = distinct (list, d-set) inputs whose result was compared.",
+			"Cues carry inline timestamps, voices and comments; lists carry metadata of every source format; a quarter of the lists have a past (ordered, fragmented beyond the end, unfragmented, shifted forth and back, identity-corrected before, then re-timed in place); random list sizes include 11..14, 63..65, 127..129, 255..257, 511..513, 1023..1025. Cues carry inline timestamps, voices and comments; lists carry metadata of every source format; a quarter of the lists have a past (ordered, fragmented beyond the end, unfragmented, shifted forth and back, identity-corrected before, then re-timed in place); random list sizes include 11..14, 63..65, 127..129, 255..257, 511..513, 1023..1025. distinct_nontrivial = distinct (list, d-set) inputs whose result was compared.",
 		Assumptions: []string{"cues satisfy start <= end (the property's precondition)", "the snapshot used for 'content untouched' covers index, comments, lines, runs, style/region/inline-style identity and first-level content"},
 		Cases:       func(tier string) int64 { return c09GridLists(tier) + randomN(tier) + cliN(tier) },
 		Exhaustive: func(tier string) string {
